@@ -97,10 +97,12 @@ Theorem C20_dom_refuted :
 Proof.
   split.
   - exists (mkNow 2026 3 31 0 0), 31, (1, 0, 0).
-    repeat split; try (vm_compute; congruence); try lia.
+    split; [vm_compute; reflexivity|]. split; [cbn; lia|]. split; [lia|].
+    split; [vm_compute; reflexivity|]. split; [vm_compute; reflexivity|].
     intros [th [delta [E _]]]. vm_compute in E. discriminate.
   - exists (mkNow 2026 3 15 3600 0), 20, (1, 0, 0).
-    repeat split; try (vm_compute; congruence); try lia.
+    split; [vm_compute; reflexivity|]. split; [cbn; lia|]. split; [lia|].
+    split; [vm_compute; reflexivity|]. split; [vm_compute; reflexivity|].
     intros [th [delta [E [_ S]]]].
     assert (T : th = mkI (ord 2026 4 20) 3600 0) by (vm_compute in E; vm_compute; congruence).
     subst th. apply (S 2026 3); [vm_compute; reflexivity|]. vm_compute. split; congruence.
@@ -203,10 +205,12 @@ Theorem C20_recurs_refuted :
   ~ (exists now, In 1%nat (s_que (fst (defer now [1%nat] wk_done)))).
 Proof.
   assert (N : forall now, defer now [1%nat] wk_done = (wk_done, None)).
-  { intro now. apply dl_defer_noop; [vm_compute; reflexivity|].
-    vm_compute. repeat constructor. }
-  repeat split; try (vm_compute; reflexivity); try exact N.
-  intros [now I]. rewrite N in I. vm_compute in I. exact I.
+  { intro now. apply dl_defer_noop_b; vm_compute; reflexivity. }
+  assert (Q : s_que wk_done = []) by (vm_compute; reflexivity).
+  split; [vm_compute; reflexivity|]. split; [vm_compute; reflexivity|].
+  split; [exact Q|]. split; [vm_compute; reflexivity|]. split; [vm_compute; reflexivity|].
+  split; [exact N|].
+  intros [now I]. rewrite N in I. cbn [fst] in I. rewrite Q in I. exact I.
 Qed.
 Print Assumptions C20_recurs_refuted.
 
